@@ -13,6 +13,10 @@ CHECKS = {
    text="Lean theorems over a statement-by-statement model of unicode.cpp and the BOM policy (round trips for all code points / byte strings, identity rewrite for every decodable byte string, commutation with transcoding); model tied to the code by function-level differential runs (exhaustive over all scalars in the thorough tier) and CLI runs",
    note="trusted: Lean kernel; hand-written model validated by correspondence; code points < 2^31",
    technique="Lean 4 proof over hand-written model + differential correspondence against the compiled functions"),
+ "C11": dict(level="proof", design="6/C11",
+   text="Lean theorem: non-interference for every finite file sequence from a classification of all process-global state (K/R/W/D); the classification is total over inventories regenerated from the source on every run (members of cp_data_t, assignments in uncrustify_end(), writable globals from nm), contains no unsafe location and every R member is assigned in uncrustify_end(); the restore hypothesis is monitored by the digest hook at the head of every file of every batch, a monitor failure triggers a steered search for a file formatted differently; direct oracle: batch outputs vs single outputs (pairs, triples, -F lists, mixed languages/encodings/terminators/regions, with and without -l)",
+   note="trusted: Lean kernel; T-reset translator; committed classification (W-class locations are assumed written before read, checked only through the oracle); digest hook H4",
+   technique="Lean 4 proof (non-interference) + regenerated state inventory + digest monitor + differential batch/single runs"),
  "C17": dict(level="proof", design="6/C17",
    text="Lean theorems about the output machine: after every visible text chunk nothing blank is pending or last written, so a NEWLINE chunk emits exactly its terminators (no trailing blank); indentation written by output_to_column is tabs-then-spaces, spaces only with tabs off; file-edge policy (eat_start_end + do_blank_lines edge rule). Tie: hook-trace replay through the model on every run, eatEdge/fileEdge model vs real edge breaks; monitor of the WF hypothesis at P1; op-level and byte-level oracles",
    note="trusted: Lean kernel; models AddChar/Render/EatSE validated by correspondence; comment interiors, literals, disabled regions excluded as the property says; WF of chunk texts is monitored, not proved",
